@@ -51,6 +51,7 @@ func main() {
 			return err
 		}
 		l.StrDef("srcValidateTimestamp", p.Src(vt.Body), "body of ss2022.ValidateUnixEpochTimestamp")
+		l.Raw("/-- the checks a UDP message header parser makes: fixed-length part present, type byte, timestamp,\nclient session id, padding fits, SOCKS address parses -/\ninductive HdrCheck where | len | typ | ts | csid | pad | addr\nderiving Repr, DecidableEq\n")
 		for _, it := range [][2]string{{"udpClientHeaderChecks", "ParseUDPClientMessageHeader"}, {"udpServerHeaderChecks", "ParseUDPServerMessageHeader"}} {
 			fd, err := p.Func("", it[1])
 			if err != nil {
@@ -62,6 +63,12 @@ func main() {
 			}
 			l.Raw("/-- the error-producing statements of ss2022." + it[1] + ", in order -/\n")
 			l.Raw("def " + it[0] + " : List String := " + gen.LeanStrList(ch) + "\n")
+			kinds, err := checkKinds(ch)
+			if err != nil {
+				return fmt.Errorf("%s: %w", it[1], err)
+			}
+			l.Raw("/-- the same as a program of checks the model executes in this order -/\n")
+			l.Raw("def " + strings.Replace(it[0], "Checks", "Order", 1) + " : List HdrCheck := [" + strings.Join(kinds, ", ") + "]\n")
 		}
 		// the arithmetic on peer-controlled packet ids: body fingerprints of the filter functions the model mirrors
 		for _, it := range [][3]string{{"srcSwfNew", "", "NewSlidingWindowFilter"}, {"srcSwfIsOk", "*SlidingWindowFilter", "IsOk"},
@@ -135,6 +142,34 @@ func headerChecks(p *gen.Pkg, fd *ast.FuncDecl) ([]string, error) {
 		case *ast.DeclStmt, *ast.IncDecStmt:
 		default:
 			return nil, fmt.Errorf("unrecognised statement shape (statement kind): %s", src)
+		}
+	}
+	return out, nil
+}
+
+// checkKinds turns the error-producing statements of a header parser into the program of checks of the model.
+func checkKinds(ch []string) ([]string, error) {
+	var out []string
+	for i := 0; i < len(ch); i++ {
+		c := ch[i]
+		follows := i+1 < len(ch) && ch[i+1] == "ret-if-err"
+		switch {
+		case c == "if len(b) < UDPClientMessageHeaderFixedLength" || c == "if len(b) < UDPServerMessageHeaderFixedLength":
+			out = append(out, ".len")
+		case c == "if b[0] != HeaderTypeClientPacket" || c == "if b[0] != HeaderTypeServerPacket":
+			out = append(out, ".typ")
+		case c == "err<-ValidateUnixEpochTimestamp(b[1:1+8], now)" && follows:
+			out = append(out, ".ts")
+			i++
+		case c == "if pcsid != csid":
+			out = append(out, ".csid")
+		case c == "if payloadStart > len(b)":
+			out = append(out, ".pad")
+		case (c == "err<-domainCache.ConnAddrFromSlice(b[payloadStart:])" || c == "err<-socks5.AddrPortFromSlice(b[payloadStart:])") && follows:
+			out = append(out, ".addr")
+			i++
+		default:
+			return nil, fmt.Errorf("unrecognised header check: %s", c)
 		}
 	}
 	return out, nil
